@@ -763,10 +763,10 @@ func (a *Analysis) classifyScalars() {
 						sx, sy := a.srcOf[x.X], a.srcOf[x.Y]
 						_, cx := x.X.(*ssa.Const)
 						_, cy := x.Y.(*ssa.Const)
-						if !cx && a.rowConstOf(x.X) != nil {
+						if rc := a.rowConstOf(x.X); !cx && rc != nil && !rc.str {
 							cx = true
 						}
-						if !cy && a.rowConstOf(x.Y) != nil {
+						if rc := a.rowConstOf(x.Y); !cy && rc != nil && !rc.str {
 							cy = true
 						}
 						vx, vy := !a.effClean(x.X), !a.effClean(x.Y)
